@@ -34,6 +34,30 @@ type Case struct {
 	Inner string   `json:"inner"` // "mem" or "osfs"
 	Setup []ops.Op `json:"setup"`
 	Op    ops.Op   `json:"op"`
+	// View: the helper is called on a generic Sub view at "." of the (full / masked / faulted) file system, not on it
+	// directly: the view implements every interface and reaches its root through the helpers
+	View bool `json:"view,omitempty"`
+}
+
+// via returns the file system the helper is called on.
+func via(c Case, fs hackpadfs.FS) (hackpadfs.FS, error) {
+	if !c.View {
+		return fs, nil
+	}
+	return hackpadfs.Sub(fs, ".")
+}
+
+// applyVia runs the helper on via(c, fs); a view that cannot be made is the operation's failure.
+func applyVia(c Case, fs hackpadfs.FS) ops.Res {
+	var v hackpadfs.FS
+	var err error
+	if pan, hung := vf.Guard(func() { v, err = via(c, fs) }); pan != "" || hung {
+		return ops.Res{Panic: pan, Hung: hung}
+	}
+	if err != nil {
+		return ops.Res{Err: err, Stage: "view:"}
+	}
+	return apply(v, c.Op)
 }
 
 type env struct {
@@ -223,7 +247,7 @@ func has(set []string, x string) bool {
 func check(c Case) (string, string, outcome) {
 	var out outcome
 	full := build(c)
-	fullRes := apply(full.fs, c.Op)
+	fullRes := applyVia(c, full.fs)
 	fullSnap, prob := ops.SnapFS(full.fs)
 	full.close()
 	base := fmt.Sprintf("C08/%s %s", c.Inner, c.Op.K)
@@ -252,7 +276,7 @@ func check(c Case) (string, string, outcome) {
 			e.close()
 			return base + ":no-mask-type", "no generated mask type for " + key, out
 		}
-		res := apply(m, c.Op)
+		res := applyVia(c, m)
 		snap, prob := ops.SnapFS(e.fs)
 		e.close()
 		out.subsets++
@@ -281,7 +305,7 @@ func check(c Case) (string, string, outcome) {
 			e := build(c)
 			hf := &masks.Hooks{FailAt: i}
 			mf := masks.New(e.fs, set, hf)
-			fres := apply(mf, c.Op)
+			fres := applyVia(c, mf)
 			fsnap, fprob := ops.SnapFS(e.fs)
 			e.close()
 			out.faults++
@@ -311,7 +335,7 @@ func check(c Case) (string, string, outcome) {
 				e := build(c)
 				hf := &masks.Hooks{FailAt: i, Vanished: true}
 				mf := masks.New(e.fs, set, hf)
-				fres := apply(mf, c.Op)
+				fres := applyVia(c, mf)
 				_, serr := hackpadfs.LstatOrStat(e.fs, c.Op.P)
 				e.close()
 				out.faults++
@@ -542,6 +566,9 @@ func genCase(t *rapid.T, inner string) Case {
 		}
 	}
 	c.Op = op
+	if inner == "mem" && rapid.IntRange(0, 3).Draw(t, "view") == 0 {
+		c.View = true
+	}
 	return c
 }
 
